@@ -285,6 +285,36 @@ m("M20f_compare_inverted", ["C20"], [("pdf/src/build.rs", "        Ok(same && b_
 m("M20g_derive_skips_ref_fields", ["C20"], [("pdf_derive/src/lib.rs", "            quote! {\n                #field: self.#field.deep_clone(cloner)?,\n            }", "            if field.as_ref().map(|f| f == \"pattern\").unwrap_or(false) { quote! { #field: self.#field.clone(), } } else { quote! {\n                #field: self.#field.deep_clone(cloner)?,\n            } }")],
   expect="C20-G1", note="(targeted at one field) a Resources.pattern map copied verbatim keeps source references")
 
+# ------------------------------------------------------------------ C01
+m("M01a_no_depth_test", ["C01"], [
+    ("pdf/src/parser/mod.rs", "        if max_depth == 0 {\n            return Err(PdfError::MaxDepth);\n        }\n        let dict = t!(parse_dictionary_object(lexer, r, ctx, max_depth-1));",
+     "        let dict = t!(parse_dictionary_object(lexer, r, ctx, max_depth.saturating_sub(1)));"),
+    ("pdf/src/parser/mod.rs", "        check(flags, ParseFlags::ARRAY)?;\n        if max_depth == 0 {\n            return Err(PdfError::MaxDepth);\n        }\n", "        check(flags, ParseFlags::ARRAY)?;\n"),
+], expect="C01-G1", note="deeply nested [[[[...]]]] overflows the stack")
+m("M01b_prev_no_seen", ["C01"], [("pdf/src/backend.rs", "            if seen.contains(&prev_xref_offset) {\n                bail!(\"xref offsets loop\");\n            }\n", "")], expect="C01-G3", note="two sections whose /Prev point at each other")
+m("M01c_next_stream_index", ["C01"], [("pdf/src/parser/lexer/mod.rs", "let &b0 = self.buf.get(pos + 6).ok_or(PdfError::EOF)?;", "let b0 = self.buf[pos + 6];")], expect="C01-", note="`stream` keyword at the very end of the buffer")
+m("M01d_set_pos_unclamped", ["C01"], [("pdf/src/parser/lexer/mod.rs", "let new_pos = wanted_pos.min(self.buf.len());", "let new_pos = wanted_pos;")], expect="C01-G6")
+m("M01e_promised_panics", ["C01"], [("pdf/src/file.rs", "XRef::Promised => unimplemented!(),\n                XRef::Invalid => err!(PdfError::NullRef {obj_nr: r.id}),\n            }\n        }\n    }\n}\n\npub enum ScanItem",
+                                      "XRef::Promised => panic!(\"promised\"),\n                XRef::Invalid => err!(PdfError::NullRef {obj_nr: r.id}),\n            }\n        }\n    }\n}\n\npub enum ScanItem")], expect="C01-PANIC")
+m("M01f_to_range_end", ["C01"], [("pdf/src/backend.rs", "(None, Some(end)) if end <= len => Ok(0 .. end),", "(None, Some(end)) => Ok(0 .. end),")], expect="C01-G5")
+m("M01g_pair_no_len_test", ["C01"], [("pdf/src/object/mod.rs", "        if arr.len() != 2 {\n            bail!(\"expected array of length 2 (found {})\", arr.len());\n        }\n        let [a, b]", "        let [a, b]")], expect="C01-PANIC")
+m("M01h_read_n_no_clamp", ["C01"], [("pdf/src/parser/lexer/mod.rs", "        if self.pos >= self.buf.len() {\n            self.pos = self.buf.len() - 1;\n        }\n", "")], expect="C01-G6", note="stream /Length beyond the end of the file")
+m("M01i_rle_index", ["C01"], [("pdf/src/enc.rs", "let b = *d.get(c + 1).ok_or(PdfError::EOF)?; // copied byte", "let b = d[c + 1]; // copied byte")], expect="C01-ACCESS", note="run-length data ending in a repeat marker")
+m("M01j_unimplemented_std", ["C01"], [("pdf/src/error.rs", "macro_rules! unimplemented {\n    () => (bail!(\"Unimplemented @ {}:{}\", file!(), line!()))\n}", "macro_rules! unimplemented_ {\n    () => (bail!(\"Unimplemented @ {}:{}\", file!(), line!()))\n}")], expect="C01-PANIC", note="the crate's override is what turns unimplemented!() into Err")
+m("M01k_skip_ws_no_eof", ["C01"], [("pdf/src/parser/lexer/mod.rs", "        if pos >= self.buf.len() {\n            Err(PdfError::EOF)\n        } else {\n            Ok(pos)\n        }", "        Ok(pos)")], expect=None, note="value-level: callers index buf[pos] after is_delimiter(pos) (get-based); expected to stay silent unless a caller indexes directly")
+
+# ------------------------------------------------------------------ C14
+m("M14a_get_no_chain_test", ["C14"], [("pdf/src/file.rs", "            if chain.contains(&key) {\n                bail!(\"Recursive reference\");\n            }\n", "")], expect="C14-GUARD")
+m("M14b_no_max_id", ["C14"], [("pdf/src/backend.rs", "        if highest_id > MAX_ID {\n            bail!(\"too many objects\");\n        }\n", "")], expect="C14-TAINT", note="/Size 2000000000 allocates the table")
+m("M14c_flate_no_row_test", ["C14"], [("pdf/src/enc.rs", "        if stride >= inp.len() {\n            // not even one complete row\n            return Ok(Vec::new());\n        }\n", "")], expect="C14-TAINT", note="vec![0; stride] for a huge /Columns")
+m("M14d_widths_no_c2_test", ["C14"], [("pdf/src/font.rs", "                            if c2 < 0 || c2 as usize > MAX_CID {\n                                bail!(\"CID {} out of range\", c2);\n                            }\n", "")], expect="C14-K4", note="/W [0 2000000000 500]")
+m("M14e_tree_depth_kept", ["C14"], [("pdf/src/object/types.rs", "            NameTreeNode::Intermediate(ref items) => {\n                for &tree_ref in items {\n                    let tree = r.get(tree_ref)?;\n                    tree.walk_limited(r, callback, depth - 1)?;", "            NameTreeNode::Intermediate(ref items) => {\n                for &tree_ref in items {\n                    let tree = r.get(tree_ref)?;\n                    tree.walk_limited(r, callback, depth)?;")], expect="C14-REC")
+m("M14f_xref_width_test", ["C14"], [("pdf/src/parser/parse_xref.rs", "    if w0 > 8 || w1 > 8 || w2 > 8 || w0 + w1 + w2 == 0 {\n        bail!(\"invalid xref stream field widths [{} {} {}]\", w0, w1, w2);\n    }\n", "")], expect="C14-TAINT", note="division by the zero entry length")
+m("M14g_keysize_unchecked", ["C14"], [("pdf/src/crypt.rs", "            if !(5..=16).contains(&key_size) {\n                err!(other!(\"invalid key length {}\", key_bits));\n            }\n", "")], expect="C14-TAINT")
+m("M14h_colorspace_no_depth_test", ["C14"], [("pdf/src/object/color.rs", "        if depth == 0 {\n            bail!(\"ColorSpace base recursion\");\n        }\n", "")], expect="C14-REC", note="budget decremented but never tested")
+m("M14i_page_depth_const", ["C14"], [("pdf/src/object/types.rs", "return tree.page_limited(resolve, page_nr - pos, depth - 1);", "return tree.page_limited(resolve, page_nr - pos, 16);")], expect="C14-REC", note="budget reset on every level")
+m("M14j_objstm_first_unchecked", ["C14"], [("pdf/src/object/stream.rs", "let start = first.checked_add(self.offsets[index]).ok_or(PdfError::Invalid)?;", "let start = first + self.offsets[index];")], expect="C14-TAINT")
+
 
 def gen_patch(mu):
     files = {}
